@@ -26,6 +26,9 @@ OPTS = {'timeout_ms': 30000}
 def instances(tier, seed):
     out = std_instances(tier, seed)
     out += axis_instances(tier)
+    # occurrences holding an atom and its own image (cell edge = pattern length)
+    for sname, ax in (('S33', 0), ('S34', 0), ('S34', 1)):
+        out.append(dict(name=f"find:{sname}:axis{ax}:occurrence-contains-an-atom-and-its-own-image", family='find', struct=sname, axes=[ax], other=(0.1, 0.3, 0.2), cost=20))
     for cn in (['o1', 't1', 't3', 't5'] if tier == 'quick' else ['o1', 'o2', 't1', 't2', 't3', 't4', 't5', 'tr']):
         out.append(dict(name=f"window:{cn}", family='window', cell=cn, cost=30))
     return out
